@@ -2989,20 +2989,20 @@ theorem showOrder_follow (c : Option Expr) (sf : List SortField) (l o : Int) (k 
     Follow.opt (kwText_order _) (by decide +kernel) rfl (by decide) (g3.mono (by decide))
   exact ⟨g4, g3, gO, Follow.opt (kwText_where _) (by decide +kernel) rfl (by decide) (gO.mono (by decide))⟩
 
-/-- `[ON db] [FROM names] WITH KEY <op> <key> [WHERE cond] [ORDER BY …] [LIMIT l] [OFFSET o]`. -/
-def showTagValuesText (db : Str) (names : List Str) (op : Token) (key : Expr) (c : Option Expr) (sf : List SortField)
+/-- `[ON db] [FROM qs] WITH KEY <op> <key> [WHERE cond] [ORDER BY …] [LIMIT l] [OFFSET o]`. -/
+def showTagValuesText (db : Str) (qs : List (Str × Str × Str)) (op : Token) (key : Expr) (c : Option Expr) (sf : List SortField)
     (l o : Int) : Str :=
-  onDbText db ++ (fromText names ++ (withKeyText op key ++ (whereText c ++ (orderText sf ++
+  onDbText db ++ (fromQualsText qs ++ (withKeyText op key ++ (whereText c ++ (orderText sf ++
     (posText .LIMIT l ++ posText .OFFSET o)))))
 
-theorem showTagValues_print_partial (db : Str) (names : List Str) (op : Token) (key : Expr) (c : Option Expr)
-    (sf : List SortField) (l o : Int) (h : ∀ m ∈ names, m ≠ []) (hsf : sortOKB sf = true) :
-    (Statement.showTagValues db (names.map nameSrc) op (some key) c sf l o).print =
-      tx "SHOW TAG VALUES" ++ showTagValuesText db names op key c sf l o := by
-  have p1 : (Statement.showTagValues db (names.map nameSrc) op (some key) c sf l o).print =
-      tx "SHOW TAG VALUES" ++ clauseOn db ++ clauseFrom (names.map nameSrc) ++ printTagKey op key ++ clauseWhere c ++
+theorem showTagValues_print_partial (db : Str) (qs : List (Str × Str × Str)) (op : Token) (key : Expr) (c : Option Expr)
+    (sf : List SortField) (l o : Int) (hsf : sortOKB sf = true) :
+    (Statement.showTagValues db (qs.map qualSrc) op (some key) c sf l o).print =
+      tx "SHOW TAG VALUES" ++ showTagValuesText db qs op key c sf l o := by
+  have p1 : (Statement.showTagValues db (qs.map qualSrc) op (some key) c sf l o).print =
+      tx "SHOW TAG VALUES" ++ clauseOn db ++ clauseFrom (qs.map qualSrc) ++ printTagKey op key ++ clauseWhere c ++
         clauseOrderBy sf ++ clausePos "LIMIT" l ++ clausePos "OFFSET" o := rfl
-  rw [p1, clauseFrom_names names h, clauseWhere_eq, clauseOn_onDbText, (clausePos_eq l).1, (clausePos_eq o).2.1,
+  rw [p1, clauseFrom_quals qs, clauseWhere_eq, clauseOn_onDbText, (clausePos_eq l).1, (clausePos_eq o).2.1,
     clauseOrderBy_eq sf hsf, printTagKey_eq]
   simp only [showTagValuesText, List.append_assoc, List.append_nil]
 
@@ -3011,27 +3011,28 @@ theorem showTagValues_print_partial (db : Str) (names : List Str) (op : Token) (
 as identifier and read back by `ParseIdent` into a string literal). The key clause is complete: `tagKeyOKB`
 holds of every operator / key pair `parseTagKeyExpr` returns for a regex written as text (key names and the
 list of `IN` of any length); so is the sort clause (`sortOKB`: the lists `parseOrderBy` returns).
-Partial (as `showSeries_print_parse_partial`): sources are plain measurement names (not empty in the text
-equation: finding `empty-identifier-not-printed`), the condition is `Printable`. -/
-theorem showTagValues_print_parse_partial (fuel : Nat) (s : PState) (db : Str) (names : List Str) (op : Token)
+Partial: the sources are measurements `db.rp.m` / `db..m` / `rp.m` / `m` printed by `Measurement.String()`
+(`QualOK`: the measurement name is not empty — finding `empty-identifier-not-printed` —; no regex sources),
+the condition is `Printable` (C03's class, see `deleteLike_print_parse_partial`). -/
+theorem showTagValues_print_parse_partial (fuel : Nat) (s : PState) (db : Str) (qs : List (Str × Str × Str)) (op : Token)
     (key : Expr) (c : Option Expr) (sf : List SortField) (l o : Int) (k : Str)
-    (hexdb : Expressible db) (hex : ∀ m ∈ names, Expressible m) (hkey : tagKeyOKB op key = true) (hc : CondOK c)
+    (hexdb : Expressible db) (hq : ∀ m ∈ qs, QualOK m) (hkey : tagKeyOKB op key = true) (hc : CondOK c)
     (hsf : sortOKB sf = true)
     (hl : 0 ≤ l ∧ l ≤ maxInt64) (ho : 0 ≤ o ∧ o ≤ maxInt64) (hk : Follow k showStop)
-    (hs : s.Before (showTagValuesText db names op key c sf l o ++ k)) :
+    (hs : s.Before (showTagValuesText db qs op key c sf l o ++ k)) :
     wp (runHandler fuel .parseShowTagValuesStatement) s
-      (fun st s' => st = .showTagValues db (names.map nameSrc) op (some key) c sf l o ∧ RT.Stand s' k) (· = .fuel) := by
+      (fun st s' => st = .showTagValues db (qs.map qualSrc) op (some key) c sf l o ∧ RT.Stand s' k) (· = .fuel) := by
   obtain ⟨g4, g3, gO, g2⟩ := showOrder_follow c sf l o k hk
   have gW : Follow (withKeyText op key ++ (whereText c ++ (orderText sf ++ (posText .LIMIT l ++ (posText .OFFSET o ++ k)))))
       [.EXACT, .CARDINALITY, .ON, .FROM, .COMMA] :=
     Follow.opt (kwText_withKey op key) (by decide +kernel) rfl (by decide) (g2.mono (by decide))
-  have gF : Follow (fromText names ++ (withKeyText op key ++ (whereText c ++ (orderText sf ++ (posText .LIMIT l ++ (posText .OFFSET o ++ k))))))
+  have gF : Follow (fromQualsText qs ++ (withKeyText op key ++ (whereText c ++ (orderText sf ++ (posText .LIMIT l ++ (posText .OFFSET o ++ k))))))
       [.EXACT, .CARDINALITY, .ON] :=
-    Follow.opt (kwText_from _) (by decide +kernel) rfl (by decide) (gW.mono (by decide))
-  have g0 : Follow (onDbText db ++ (fromText names ++ (withKeyText op key ++ (whereText c ++ (orderText sf ++ (posText .LIMIT l ++
+    Follow.opt (kwText_fromQuals _) (by decide +kernel) rfl (by decide) (gW.mono (by decide))
+  have g0 : Follow (onDbText db ++ (fromQualsText qs ++ (withKeyText op key ++ (whereText c ++ (orderText sf ++ (posText .LIMIT l ++
       (posText .OFFSET o ++ k))))))) [.EXACT, .CARDINALITY] :=
     Follow.opt (kwText_onDb _) (by decide +kernel) rfl (by decide) (gF.mono (by decide))
-  have hs0 : RT.Stand s (onDbText db ++ (fromText names ++ (withKeyText op key ++ (whereText c ++ (orderText sf ++ (posText .LIMIT l ++
+  have hs0 : RT.Stand s (onDbText db ++ (fromQualsText qs ++ (withKeyText op key ++ (whereText c ++ (orderText sf ++ (posText .LIMIT l ++
       (posText .OFFSET o ++ k))))))) := by
     have := hs.stand
     simpa only [showTagValuesText, List.append_assoc] using this
@@ -3040,7 +3041,7 @@ theorem showTagValues_print_parse_partial (fuel : Nat) (s : PState) (db : Str) (
   have hne1 : ¬ lx.tok = .EXACT := by rw [t1]; intro e; exact hnot (by rw [e]; simp)
   have hne2 : ¬ lx.tok = .CARDINALITY := by rw [t1]; intro e; exact hnot (by rw [e]; simp)
   obtain ⟨s3, h3, st3⟩ := parseOnDb_stand (unsc s1) db _ hexdb (gF.mono (by decide)) st1
-  obtain ⟨s4, h4, st4⟩ := parseOptFrom_names s3 names _ hex (gW.mono (by decide)) st3
+  obtain ⟨s4, h4, st4⟩ := parseOptFrom_quals s3 qs _ hq (gW.mono (by decide)) st3
   obtain ⟨s5, h5, b5⟩ := parseTagKeyExpr_print s4 op key _ hkey g2.tokEnd.1 st4
   simp only [runHandler, parseShowTagValues]
   rw [wp_bind, wp_of_run_ok h1]
@@ -3059,11 +3060,11 @@ theorem showTagValues_print_parse_partial (fuel : Nat) (s : PState) (db : Str) (
 
 /-- Non-vacuity: the five forms of the key clause. -/
 def exKeyIn : Expr := .list ["host".toList, "my tag".toList, "select".toList]
-def exTagValuesText1 : Str := showTagValuesText "my db".toList exNames .IN exKeyIn exCond exSort 10 3
+def exTagValuesText1 : Str := showTagValuesText "my db".toList exQs .IN exKeyIn exCond exSort 10 3
 def exTagValuesText2 : Str := showTagValuesText [] [] .NEQREGEX (.regex "^a/b".toList) none [] 0 0
-def exTagValuesText3 : Str := showTagValuesText [] ["cpu".toList] .EQ (.string "my tag".toList) none [⟨[], true⟩] 5 0
+def exTagValuesText3 : Str := showTagValuesText [] [([], [], "cpu".toList)] .EQ (.string "my tag".toList) none [⟨[], true⟩] 5 0
 
-example : exTagValuesText1 = (" ON \"my db\" FROM cpu, \"my m\" WITH KEY IN (host, \"my tag\", \"select\") " ++
+example : exTagValuesText1 = (" ON \"my db\" FROM \"my db\"..cpu, rp.m, m WITH KEY IN (host, \"my tag\", \"select\") " ++
       "WHERE host = 'a' AND (x > -1 OR y =~ /^b/) ORDER BY time DESC LIMIT 10 OFFSET 3").toList ∧
     exTagValuesText2 = " WITH KEY !~ /^a\\/b/".toList ∧
     exTagValuesText3 = " FROM cpu WITH KEY = \"my tag\" ORDER BY ASC LIMIT 5".toList := by decide +kernel
@@ -3076,9 +3077,9 @@ example : tagKeyOKB .IN exKeyIn = true ∧ tagKeyOKB .NEQREGEX (.regex "^a/b".to
 section
 attribute [local irreducible] wp
 example : wp (runHandler 200 .parseShowTagValuesStatement) (PState.init exTagValuesText1 [] [])
-    (fun st s' => st = .showTagValues "my db".toList (exNames.map nameSrc) .IN (some exKeyIn) exCond exSort 10 3 ∧
+    (fun st s' => st = .showTagValues "my db".toList (exQs.map qualSrc) .IN (some exKeyIn) exCond exSort 10 3 ∧
       RT.Stand s' [eofRune]) (· = .fuel) :=
-  showTagValues_print_parse_partial 200 (PState.init exTagValuesText1 [] []) "my db".toList exNames .IN exKeyIn exCond exSort 10 3
+  showTagValues_print_parse_partial 200 (PState.init exTagValuesText1 [] []) "my db".toList exQs .IN exKeyIn exCond exSort 10 3
     [eofRune] (by decide +kernel) (by decide +kernel) (by decide +kernel) (by decide +kernel) (by decide +kernel) (by decide)
     (by decide)
     (Follow.eof _ (by decide)) (init_before exTagValuesText1 (by decide +kernel))
@@ -3272,13 +3273,13 @@ example : (match parseStatementText "SHOW MEASUREMENTS ON \"\".rp".toList [] [] 
 
 /-! ### the cardinality statements -/
 
-/-- `[ON db] [FROM names] [WHERE cond] [GROUP BY dims] [LIMIT l] [OFFSET o]`. -/
-def cardText (db : Str) (names : List Str) (c : Option Expr) (ds : List Expr) (l o : Int) : Str :=
-  onDbText db ++ (fromText names ++ (whereText c ++ (groupText ds ++ (posText .LIMIT l ++ posText .OFFSET o))))
+/-- `[ON db] [FROM qs] [WHERE cond] [GROUP BY dims] [LIMIT l] [OFFSET o]`. -/
+def cardText (db : Str) (qs : List (Str × Str × Str)) (c : Option Expr) (ds : List Expr) (l o : Int) : Str :=
+  onDbText db ++ (fromQualsText qs ++ (whereText c ++ (groupText ds ++ (posText .LIMIT l ++ posText .OFFSET o))))
 
 /-- The same with the `WITH KEY` clause of SHOW TAG VALUES CARDINALITY. -/
-def cardKeyText (db : Str) (names : List Str) (op : Token) (key : Expr) (c : Option Expr) (ds : List Expr) (l o : Int) : Str :=
-  onDbText db ++ (fromText names ++ (withKeyText op key ++ (whereText c ++ (groupText ds ++
+def cardKeyText (db : Str) (qs : List (Str × Str × Str)) (op : Token) (key : Expr) (c : Option Expr) (ds : List Expr) (l o : Int) : Str :=
+  onDbText db ++ (fromQualsText qs ++ (withKeyText op key ++ (whereText c ++ (groupText ds ++
     (posText .LIMIT l ++ posText .OFFSET o)))))
 
 /-- ` [EXACT] CARDINALITY`. -/
@@ -3289,34 +3290,34 @@ theorem exactCard_eq (ex : Bool) :
     tx " " ++ exactCardinality ex = exactCardText ex := by
   cases ex <;> decide +kernel
 
-/-- The text equations (measurement names not empty: finding `empty-identifier-not-printed`). -/
-theorem cardinality_print_partial (db : Str) (ex : Bool) (names : List Str) (op : Token) (key : Expr) (c : Option Expr)
-    (ds : List Expr) (l o : Int) (h : ∀ m ∈ names, m ≠ []) :
-    (Statement.showSeriesCardinality db ex (names.map nameSrc) c ds l o).print =
-      tx "SHOW SERIES" ++ (exactCardText ex ++ cardText db names c ds l o) ∧
-    (Statement.showMeasurementCardinality ex db (names.map nameSrc) c ds l o).print =
-      tx "SHOW MEASUREMENT" ++ (exactCardText ex ++ cardText db names c ds l o) ∧
-    (Statement.showTagKeyCardinality db ex (names.map nameSrc) c ds l o).print =
-      tx "SHOW TAG KEY" ++ (exactCardText ex ++ cardText db names c ds l o) ∧
-    (Statement.showFieldKeyCardinality db ex (names.map nameSrc) c ds l o).print =
-      tx "SHOW FIELD KEY" ++ (exactCardText ex ++ cardText db names c ds l o) ∧
-    (Statement.showTagValuesCardinality db ex (names.map nameSrc) op (some key) c ds l o).print =
-      tx "SHOW TAG VALUES" ++ (exactCardText ex ++ cardKeyText db names op key c ds l o) := by
-  have p1 : (Statement.showSeriesCardinality db ex (names.map nameSrc) c ds l o).print =
+/-- The text equations (for all values). -/
+theorem cardinality_print_partial (db : Str) (ex : Bool) (qs : List (Str × Str × Str)) (op : Token) (key : Expr) (c : Option Expr)
+    (ds : List Expr) (l o : Int) :
+    (Statement.showSeriesCardinality db ex (qs.map qualSrc) c ds l o).print =
+      tx "SHOW SERIES" ++ (exactCardText ex ++ cardText db qs c ds l o) ∧
+    (Statement.showMeasurementCardinality ex db (qs.map qualSrc) c ds l o).print =
+      tx "SHOW MEASUREMENT" ++ (exactCardText ex ++ cardText db qs c ds l o) ∧
+    (Statement.showTagKeyCardinality db ex (qs.map qualSrc) c ds l o).print =
+      tx "SHOW TAG KEY" ++ (exactCardText ex ++ cardText db qs c ds l o) ∧
+    (Statement.showFieldKeyCardinality db ex (qs.map qualSrc) c ds l o).print =
+      tx "SHOW FIELD KEY" ++ (exactCardText ex ++ cardText db qs c ds l o) ∧
+    (Statement.showTagValuesCardinality db ex (qs.map qualSrc) op (some key) c ds l o).print =
+      tx "SHOW TAG VALUES" ++ (exactCardText ex ++ cardKeyText db qs op key c ds l o) := by
+  have p1 : (Statement.showSeriesCardinality db ex (qs.map qualSrc) c ds l o).print =
       tx "SHOW SERIES" ++ (if ex then tx " EXACT" else []) ++ tx " CARDINALITY" ++ clauseOn db ++
-        clauseFrom (names.map nameSrc) ++ clauseWhere c ++ clauseGroupBy ds ++ clausePos "LIMIT" l ++ clausePos "OFFSET" o := rfl
-  have p2 : (Statement.showMeasurementCardinality ex db (names.map nameSrc) c ds l o).print =
+        clauseFrom (qs.map qualSrc) ++ clauseWhere c ++ clauseGroupBy ds ++ clausePos "LIMIT" l ++ clausePos "OFFSET" o := rfl
+  have p2 : (Statement.showMeasurementCardinality ex db (qs.map qualSrc) c ds l o).print =
       tx "SHOW MEASUREMENT" ++ (if ex then tx " EXACT" else []) ++ tx " CARDINALITY" ++ clauseOn db ++
-        clauseFrom (names.map nameSrc) ++ clauseWhere c ++ clauseGroupBy ds ++ clausePos "LIMIT" l ++ clausePos "OFFSET" o := rfl
-  have p3 : (Statement.showTagKeyCardinality db ex (names.map nameSrc) c ds l o).print =
+        clauseFrom (qs.map qualSrc) ++ clauseWhere c ++ clauseGroupBy ds ++ clausePos "LIMIT" l ++ clausePos "OFFSET" o := rfl
+  have p3 : (Statement.showTagKeyCardinality db ex (qs.map qualSrc) c ds l o).print =
       tx "SHOW TAG KEY " ++ exactCardinality ex ++ clauseOn db ++
-        clauseFrom (names.map nameSrc) ++ clauseWhere c ++ clauseGroupBy ds ++ clausePos "LIMIT" l ++ clausePos "OFFSET" o := rfl
-  have p4 : (Statement.showFieldKeyCardinality db ex (names.map nameSrc) c ds l o).print =
+        clauseFrom (qs.map qualSrc) ++ clauseWhere c ++ clauseGroupBy ds ++ clausePos "LIMIT" l ++ clausePos "OFFSET" o := rfl
+  have p4 : (Statement.showFieldKeyCardinality db ex (qs.map qualSrc) c ds l o).print =
       tx "SHOW FIELD KEY " ++ exactCardinality ex ++ clauseOn db ++
-        clauseFrom (names.map nameSrc) ++ clauseWhere c ++ clauseGroupBy ds ++ clausePos "LIMIT" l ++ clausePos "OFFSET" o := rfl
-  have p5 : (Statement.showTagValuesCardinality db ex (names.map nameSrc) op (some key) c ds l o).print =
+        clauseFrom (qs.map qualSrc) ++ clauseWhere c ++ clauseGroupBy ds ++ clausePos "LIMIT" l ++ clausePos "OFFSET" o := rfl
+  have p5 : (Statement.showTagValuesCardinality db ex (qs.map qualSrc) op (some key) c ds l o).print =
       tx "SHOW TAG VALUES " ++ exactCardinality ex ++ clauseOn db ++
-        clauseFrom (names.map nameSrc) ++ printTagKey op key ++ clauseWhere c ++ clauseGroupBy ds ++ clausePos "LIMIT" l ++
+        clauseFrom (qs.map qualSrc) ++ printTagKey op key ++ clauseWhere c ++ clauseGroupBy ds ++ clausePos "LIMIT" l ++
         clausePos "OFFSET" o := rfl
   have e3 : tx "SHOW TAG KEY " = tx "SHOW TAG KEY" ++ tx " " := by decide +kernel
   have e4 : tx "SHOW FIELD KEY " = tx "SHOW FIELD KEY" ++ tx " " := by decide +kernel
@@ -3325,30 +3326,30 @@ theorem cardinality_print_partial (db : Str) (ex : Bool) (names : List Str) (op 
     intro x y; rw [← (exactCard_eq ex).1]; simp only [List.append_assoc]
   have a2 : ∀ x y : Str, x ++ tx " " ++ exactCardinality ex ++ y = x ++ (exactCardText ex ++ y) := by
     intro x y; rw [← (exactCard_eq ex).2]; simp only [List.append_assoc]
-  rw [p1, p2, p3, p4, p5, e3, e4, e5, clauseFrom_names names h, clauseWhere_eq, clauseOn_onDbText, (clausePos_eq l).1,
+  rw [p1, p2, p3, p4, p5, e3, e4, e5, clauseFrom_quals qs, clauseWhere_eq, clauseOn_onDbText, (clausePos_eq l).1,
     (clausePos_eq o).2.1, clauseGroupBy_eq, printTagKey_eq]
   simp only [List.append_assoc] at a1 a2 ⊢
   simp only [a1, a2, cardText, cardKeyText, List.append_assoc, and_self]
 
 section cardinality
-variable (db : Str) (names : List Str) (c : Option Expr) (ds : List Expr) (l o : Int) (k : Str)
+variable (db : Str) (qs : List (Str × Str × Str)) (c : Option Expr) (ds : List Expr) (l o : Int) (k : Str)
 
 theorem card_follow (hk : Follow k cardStop) :
-    Follow (fromText names ++ (whereText c ++ (groupText ds ++ (posText .LIMIT l ++ (posText .OFFSET o ++ k)))))
+    Follow (fromQualsText qs ++ (whereText c ++ (groupText ds ++ (posText .LIMIT l ++ (posText .OFFSET o ++ k)))))
       [.EXACT, .CARDINALITY, .ON] ∧
-    Follow (onDbText db ++ (fromText names ++ (whereText c ++ (groupText ds ++ (posText .LIMIT l ++
+    Follow (onDbText db ++ (fromQualsText qs ++ (whereText c ++ (groupText ds ++ (posText .LIMIT l ++
       (posText .OFFSET o ++ k)))))) [.EXACT, .CARDINALITY] := by
   obtain ⟨_, _, _, g2⟩ := cardRest_follow c ds l o k hk
-  have gF : Follow (fromText names ++ (whereText c ++ (groupText ds ++ (posText .LIMIT l ++ (posText .OFFSET o ++ k)))))
-      [.EXACT, .CARDINALITY, .ON] := Follow.opt (kwText_from _) (by decide +kernel) rfl (by decide) (g2.mono (by decide))
+  have gF : Follow (fromQualsText qs ++ (whereText c ++ (groupText ds ++ (posText .LIMIT l ++ (posText .OFFSET o ++ k)))))
+      [.EXACT, .CARDINALITY, .ON] := Follow.opt (kwText_fromQuals _) (by decide +kernel) rfl (by decide) (g2.mono (by decide))
   exact ⟨gF, Follow.opt (kwText_onDb _) (by decide +kernel) rfl (by decide) (gF.mono (by decide))⟩
 
-/-- `[ON db] [FROM names]` and the common tail, from a state standing before them. -/
+/-- `[ON db] [FROM qs]` and the common tail, from a state standing before them. -/
 theorem cardBody_print (fuel : Nat) (s : PState) (C : Str → List Source → Option Expr → List Expr → Int → Int → Statement)
-    (hexdb : Expressible db) (hex : ∀ m ∈ names, Expressible m) (hc : CondOK c)
+    (hexdb : Expressible db) (hq : ∀ m ∈ qs, QualOK m) (hc : CondOK c)
     (hds : ∀ x ∈ ds, RT.rtOK false x = true) (hl : 0 ≤ l ∧ l ≤ maxInt64) (ho : 0 ≤ o ∧ o ≤ maxInt64)
     (hk : Follow k cardStop)
-    (hs : RT.Stand s (onDbText db ++ (fromText names ++ (whereText c ++ (groupText ds ++ (posText .LIMIT l ++
+    (hs : RT.Stand s (onDbText db ++ (fromQualsText qs ++ (whereText c ++ (groupText ds ++ (posText .LIMIT l ++
       (posText .OFFSET o ++ k))))))) :
     wp (do
       let db ← parseOnDb
@@ -3358,27 +3359,28 @@ theorem cardBody_print (fuel : Nat) (s : PState) (C : Str → List Source → Op
       let limit ← parseOptTokInt .LIMIT
       let offset ← parseOptTokInt .OFFSET
       pure (C db sources cond dims limit offset)) s
-      (fun st s' => st = C db (names.map nameSrc) c ds l o ∧ RT.Stand s' k) (· = .fuel) := by
+      (fun st s' => st = C db (qs.map qualSrc) c ds l o ∧ RT.Stand s' k) (· = .fuel) := by
   obtain ⟨_, _, _, g2⟩ := cardRest_follow c ds l o k hk
-  obtain ⟨gF, _⟩ := card_follow db names c ds l o k hk
+  obtain ⟨gF, _⟩ := card_follow db qs c ds l o k hk
   obtain ⟨s3, h3, st3⟩ := parseOnDb_stand s db _ hexdb (gF.mono (by decide)) hs
-  obtain ⟨s4, h4, st4⟩ := parseOptFrom_names s3 names _ hex (g2.mono (by decide)) st3
+  obtain ⟨s4, h4, st4⟩ := parseOptFrom_quals s3 qs _ hq (g2.mono (by decide)) st3
   rw [wp_bind, wp_of_run_ok h3, wp_bind, wp_of_run_ok h4]
-  exact cardRest_print fuel s4 (C db (names.map nameSrc)) c ds l o k hc hds hl ho hk st4
+  exact cardRest_print fuel s4 (C db (qs.map qualSrc)) c ds l o k hc hds hl ho hk st4
 
 variable (ex : Bool)
 
 /-- **Print → parse, SHOW SERIES [EXACT] CARDINALITY** `[ON db] [FROM m1, …] [WHERE cond] [GROUP BY d1, …] [LIMIT l]
-[OFFSET o]`. Partial: plain measurement names; condition and dimensions of C03's class `Printable`
-(tag names, printable expressions; no `time(…)`, `*`, regex dimensions). -/
+[OFFSET o]`. Partial: sources `db.rp.m` / `db..m` / `rp.m` / `m` with a non-empty name (`QualOK`), no regex
+sources; condition and dimensions of C03's class `Printable`
+(tag qs, printable expressions; no `time(…)`, `*`, regex dimensions). -/
 theorem showSeriesCardinality_print_parse_partial (fuel : Nat) (s : PState)
-    (hexdb : Expressible db) (hex : ∀ m ∈ names, Expressible m) (hc : CondOK c)
+    (hexdb : Expressible db) (hq : ∀ m ∈ qs, QualOK m) (hc : CondOK c)
     (hds : ∀ x ∈ ds, RT.rtOK false x = true) (hl : 0 ≤ l ∧ l ≤ maxInt64) (ho : 0 ≤ o ∧ o ≤ maxInt64)
-    (hk : Follow k cardStop) (hs : s.Before (exactCardText ex ++ cardText db names c ds l o ++ k)) :
+    (hk : Follow k cardStop) (hs : s.Before (exactCardText ex ++ cardText db qs c ds l o ++ k)) :
     wp (runHandler fuel .parseShowSeriesStatement) s
-      (fun st s' => st = .showSeriesCardinality db ex (names.map nameSrc) c ds l o ∧ RT.Stand s' k) (· = .fuel) := by
-  obtain ⟨_, g0⟩ := card_follow db names c ds l o k hk
-  have hs0 : s.Before (exactText ex ++ (' ' :: (Token.CARDINALITY.str ++ (onDbText db ++ (fromText names ++ (whereText c ++
+      (fun st s' => st = .showSeriesCardinality db ex (qs.map qualSrc) c ds l o ∧ RT.Stand s' k) (· = .fuel) := by
+  obtain ⟨_, g0⟩ := card_follow db qs c ds l o k hk
+  have hs0 : s.Before (exactText ex ++ (' ' :: (Token.CARDINALITY.str ++ (onDbText db ++ (fromQualsText qs ++ (whereText c ++
       (groupText ds ++ (posText .LIMIT l ++ (posText .OFFSET o ++ k))))))))) := by
     simpa only [exactCardText, cardText, List.append_assoc, List.cons_append] using hs
   obtain ⟨s1, h1, b1⟩ := optExact_print s ex _ g0.tokEnd.1 hs0.around
@@ -3387,38 +3389,38 @@ theorem showSeriesCardinality_print_parse_partial (fuel : Nat) (s : PState)
   simp only [runHandler, parseShowSeries]
   rw [wp_bind, wp_of_run_ok h1, wp_bind, wp_of_run_ok h2]
   simp only [if_true]
-  exact cardBody_print db names c ds l o k fuel s2 (fun db ss c ds l o => .showSeriesCardinality db ex ss c ds l o)
-    hexdb hex hc hds hl ho hk b2.stand
+  exact cardBody_print db qs c ds l o k fuel s2 (fun db ss c ds l o => .showSeriesCardinality db ex ss c ds l o)
+    hexdb hq hc hds hl ho hk b2.stand
 
 /-- **Print → parse, SHOW MEASUREMENT [EXACT] CARDINALITY …**: the dispatch reads `SHOW MEASUREMENT EXACT` /
 `SHOW MEASUREMENT CARDINALITY`; the handler for the first expects `CARDINALITY`. Partial as above. -/
 theorem showMeasurementCardinality_print_parse_partial (fuel : Nat) (s : PState)
-    (hexdb : Expressible db) (hex : ∀ m ∈ names, Expressible m) (hc : CondOK c)
+    (hexdb : Expressible db) (hq : ∀ m ∈ qs, QualOK m) (hc : CondOK c)
     (hds : ∀ x ∈ ds, RT.rtOK false x = true) (hl : 0 ≤ l ∧ l ≤ maxInt64) (ho : 0 ≤ o ∧ o ≤ maxInt64)
     (hk : Follow k cardStop)
-    (hs : s.Before ((if ex then ' ' :: Token.CARDINALITY.str else []) ++ cardText db names c ds l o ++ k)) :
+    (hs : s.Before ((if ex then ' ' :: Token.CARDINALITY.str else []) ++ cardText db qs c ds l o ++ k)) :
     wp (runHandler fuel (if ex then .parseShowMeasurementCardinalityStatement_true
         else .parseShowMeasurementCardinalityStatement_false)) s
-      (fun st s' => st = .showMeasurementCardinality ex db (names.map nameSrc) c ds l o ∧ RT.Stand s' k) (· = .fuel) := by
-  obtain ⟨_, g0⟩ := card_follow db names c ds l o k hk
+      (fun st s' => st = .showMeasurementCardinality ex db (qs.map qualSrc) c ds l o ∧ RT.Stand s' k) (· = .fuel) := by
+  obtain ⟨_, g0⟩ := card_follow db qs c ds l o k hk
   cases ex with
   | true =>
-    have hs0 : s.Before ([' '] ++ (Token.CARDINALITY.str ++ (onDbText db ++ (fromText names ++ (whereText c ++
+    have hs0 : s.Before ([' '] ++ (Token.CARDINALITY.str ++ (onDbText db ++ (fromQualsText qs ++ (whereText c ++
         (groupText ds ++ (posText .LIMIT l ++ (posText .OFFSET o ++ k)))))))) := by
       simpa only [cardText, if_true, List.append_assoc, List.cons_append, List.nil_append] using hs
     obtain ⟨s2, h2, b2⟩ := expectTok_piece s [' '] Token.CARDINALITY.str _ .CARDINALITY [] ["CARDINALITY"] Gap.blank
       hs0.around (scansAs_kw .CARDINALITY _ (by decide +kernel) g0.tokEnd.1)
     simp only [if_true, runHandler, parseShowMeasurementCardinality]
     rw [wp_bind, wp_of_run_ok h2]
-    exact cardBody_print db names c ds l o k fuel s2 (fun db ss c ds l o => .showMeasurementCardinality true db ss c ds l o)
-      hexdb hex hc hds hl ho hk b2.stand
+    exact cardBody_print db qs c ds l o k fuel s2 (fun db ss c ds l o => .showMeasurementCardinality true db ss c ds l o)
+      hexdb hq hc hds hl ho hk b2.stand
   | false =>
-    have hs0 : s.Before (onDbText db ++ (fromText names ++ (whereText c ++
+    have hs0 : s.Before (onDbText db ++ (fromQualsText qs ++ (whereText c ++
         (groupText ds ++ (posText .LIMIT l ++ (posText .OFFSET o ++ k)))))) := by
       simpa only [cardText, Bool.false_eq_true, if_false, List.append_assoc, List.nil_append] using hs
     simp only [Bool.false_eq_true, if_false, runHandler, parseShowMeasurementCardinality]
-    exact cardBody_print db names c ds l o k fuel s (fun db ss c ds l o => .showMeasurementCardinality false db ss c ds l o)
-      hexdb hex hc hds hl ho hk hs0.stand
+    exact cardBody_print db qs c ds l o k fuel s (fun db ss c ds l o => .showMeasurementCardinality false db ss c ds l o)
+      hexdb hq hc hds hl ho hk hs0.stand
 
 /-- `parseExactCardinality` on ` [EXACT] CARDINALITY`. -/
 theorem parseExactCardinality_print (s : PState) (rest : Str) (hw : WordEnd rest)
@@ -3435,49 +3437,49 @@ theorem parseExactCardinality_print (s : PState) (rest : Str) (hw : WordEnd rest
 
 /-- **Print → parse, SHOW TAG KEY [EXACT] CARDINALITY … / SHOW FIELD KEY [EXACT] CARDINALITY …**. Partial as above. -/
 theorem showKeyCardinality_print_parse_partial (fuel : Nat) (s : PState)
-    (hexdb : Expressible db) (hex : ∀ m ∈ names, Expressible m) (hc : CondOK c)
+    (hexdb : Expressible db) (hq : ∀ m ∈ qs, QualOK m) (hc : CondOK c)
     (hds : ∀ x ∈ ds, RT.rtOK false x = true) (hl : 0 ≤ l ∧ l ≤ maxInt64) (ho : 0 ≤ o ∧ o ≤ maxInt64)
-    (hk : Follow k cardStop) (hs : s.Before (exactCardText ex ++ cardText db names c ds l o ++ k)) :
+    (hk : Follow k cardStop) (hs : s.Before (exactCardText ex ++ cardText db qs c ds l o ++ k)) :
     wp (runHandler fuel .parseShowTagKeyCardinalityStatement) s
-      (fun st s' => st = .showTagKeyCardinality db ex (names.map nameSrc) c ds l o ∧ RT.Stand s' k) (· = .fuel) ∧
+      (fun st s' => st = .showTagKeyCardinality db ex (qs.map qualSrc) c ds l o ∧ RT.Stand s' k) (· = .fuel) ∧
     wp (runHandler fuel .parseShowFieldKeyCardinalityStatement) s
-      (fun st s' => st = .showFieldKeyCardinality db ex (names.map nameSrc) c ds l o ∧ RT.Stand s' k) (· = .fuel) := by
-  obtain ⟨_, g0⟩ := card_follow db names c ds l o k hk
-  have hs0 : s.Before (exactText ex ++ (' ' :: (Token.CARDINALITY.str ++ (onDbText db ++ (fromText names ++ (whereText c ++
+      (fun st s' => st = .showFieldKeyCardinality db ex (qs.map qualSrc) c ds l o ∧ RT.Stand s' k) (· = .fuel) := by
+  obtain ⟨_, g0⟩ := card_follow db qs c ds l o k hk
+  have hs0 : s.Before (exactText ex ++ (' ' :: (Token.CARDINALITY.str ++ (onDbText db ++ (fromQualsText qs ++ (whereText c ++
       (groupText ds ++ (posText .LIMIT l ++ (posText .OFFSET o ++ k))))))))) := by
     simpa only [exactCardText, cardText, List.append_assoc, List.cons_append] using hs
   obtain ⟨s2, h2, b2⟩ := parseExactCardinality_print ex s _ g0.tokEnd.1 hs0
   constructor
   · simp only [runHandler, parseShowTagKeyCardinality]
     rw [wp_bind, wp_of_run_ok h2]
-    exact cardBody_print db names c ds l o k fuel s2 (fun db ss c ds l o => .showTagKeyCardinality db ex ss c ds l o)
-      hexdb hex hc hds hl ho hk b2.stand
+    exact cardBody_print db qs c ds l o k fuel s2 (fun db ss c ds l o => .showTagKeyCardinality db ex ss c ds l o)
+      hexdb hq hc hds hl ho hk b2.stand
   · simp only [runHandler, parseShowFieldKeyCardinality]
     rw [wp_bind, wp_of_run_ok h2]
-    exact cardBody_print db names c ds l o k fuel s2 (fun db ss c ds l o => .showFieldKeyCardinality db ex ss c ds l o)
-      hexdb hex hc hds hl ho hk b2.stand
+    exact cardBody_print db qs c ds l o k fuel s2 (fun db ss c ds l o => .showFieldKeyCardinality db ex ss c ds l o)
+      hexdb hq hc hds hl ho hk b2.stand
 
 /-- **Print → parse, SHOW TAG VALUES [EXACT] CARDINALITY** `[ON db] [FROM m1, …] WITH KEY … [WHERE cond] [GROUP BY …]
 [LIMIT l] [OFFSET o]`; the key clause as in `showTagValues_print_parse_partial` (complete). Partial as above. -/
 theorem showTagValuesCardinality_print_parse_partial (fuel : Nat) (s : PState) (op : Token) (key : Expr)
-    (hexdb : Expressible db) (hex : ∀ m ∈ names, Expressible m) (hkey : tagKeyOKB op key = true) (hc : CondOK c)
+    (hexdb : Expressible db) (hq : ∀ m ∈ qs, QualOK m) (hkey : tagKeyOKB op key = true) (hc : CondOK c)
     (hds : ∀ x ∈ ds, RT.rtOK false x = true) (hl : 0 ≤ l ∧ l ≤ maxInt64) (ho : 0 ≤ o ∧ o ≤ maxInt64)
-    (hk : Follow k cardStop) (hs : s.Before (exactCardText ex ++ cardKeyText db names op key c ds l o ++ k)) :
+    (hk : Follow k cardStop) (hs : s.Before (exactCardText ex ++ cardKeyText db qs op key c ds l o ++ k)) :
     wp (runHandler fuel .parseShowTagValuesStatement) s
-      (fun st s' => st = .showTagValuesCardinality db ex (names.map nameSrc) op (some key) c ds l o ∧ RT.Stand s' k)
+      (fun st s' => st = .showTagValuesCardinality db ex (qs.map qualSrc) op (some key) c ds l o ∧ RT.Stand s' k)
       (· = .fuel) := by
   obtain ⟨_, _, _, g2⟩ := cardRest_follow c ds l o k hk
   have gW : Follow (withKeyText op key ++ (whereText c ++ (groupText ds ++ (posText .LIMIT l ++ (posText .OFFSET o ++ k)))))
       [.EXACT, .CARDINALITY, .ON, .FROM, .COMMA] :=
     Follow.opt (kwText_withKey op key) (by decide +kernel) rfl (by decide) (g2.mono (by decide))
-  have gF : Follow (fromText names ++ (withKeyText op key ++ (whereText c ++ (groupText ds ++ (posText .LIMIT l ++
+  have gF : Follow (fromQualsText qs ++ (withKeyText op key ++ (whereText c ++ (groupText ds ++ (posText .LIMIT l ++
       (posText .OFFSET o ++ k)))))) [.EXACT, .CARDINALITY, .ON] :=
-    Follow.opt (kwText_from _) (by decide +kernel) rfl (by decide) (gW.mono (by decide))
-  have g0 : Follow (onDbText db ++ (fromText names ++ (withKeyText op key ++ (whereText c ++ (groupText ds ++
+    Follow.opt (kwText_fromQuals _) (by decide +kernel) rfl (by decide) (gW.mono (by decide))
+  have g0 : Follow (onDbText db ++ (fromQualsText qs ++ (withKeyText op key ++ (whereText c ++ (groupText ds ++
       (posText .LIMIT l ++ (posText .OFFSET o ++ k))))))) [.EXACT, .CARDINALITY] :=
     Follow.opt (kwText_onDb _) (by decide +kernel) rfl (by decide) (gF.mono (by decide))
   -- the clauses after `[EXACT] CARDINALITY`, from a state before them
-  have body : ∀ (s2 : PState), s2.Before (onDbText db ++ (fromText names ++ (withKeyText op key ++ (whereText c ++
+  have body : ∀ (s2 : PState), s2.Before (onDbText db ++ (fromQualsText qs ++ (withKeyText op key ++ (whereText c ++
       (groupText ds ++ (posText .LIMIT l ++ (posText .OFFSET o ++ k))))))) →
       wp (do
         let db ← parseOnDb
@@ -3488,20 +3490,20 @@ theorem showTagValuesCardinality_print_parse_partial (fuel : Nat) (s : PState) (
         let limit ← parseOptTokInt .LIMIT
         let offset ← parseOptTokInt .OFFSET
         pure (Statement.showTagValuesCardinality db ex sources op (some key) cond dims limit offset)) s2
-        (fun st s' => st = Statement.showTagValuesCardinality db ex (names.map nameSrc) op (some key) c ds l o ∧
+        (fun st s' => st = Statement.showTagValuesCardinality db ex (qs.map qualSrc) op (some key) c ds l o ∧
           RT.Stand s' k)
         (· = .fuel) := by
     intro s2 b2
     obtain ⟨s3, h3, st3⟩ := parseOnDb_stand s2 db _ hexdb (gF.mono (by decide)) b2.stand
-    obtain ⟨s4, h4, st4⟩ := parseOptFrom_names s3 names _ hex (gW.mono (by decide)) st3
+    obtain ⟨s4, h4, st4⟩ := parseOptFrom_quals s3 qs _ hq (gW.mono (by decide)) st3
     obtain ⟨s5, h5, b5⟩ := parseTagKeyExpr_print s4 op key _ hkey g2.tokEnd.1 st4
     rw [wp_bind, wp_of_run_ok h3, wp_bind, wp_of_run_ok h4, wp_bind, wp_of_run_ok h5]
     dsimp only
-    exact cardRest_print fuel s5 (fun c ds l o => .showTagValuesCardinality db ex (names.map nameSrc) op (some key) c ds l o)
+    exact cardRest_print fuel s5 (fun c ds l o => .showTagValuesCardinality db ex (qs.map qualSrc) op (some key) c ds l o)
       c ds l o k hc hds hl ho hk b5.stand
   cases ex with
   | true =>
-    have hs0 : s.Before ([' '] ++ (Token.EXACT.str ++ (' ' :: (Token.CARDINALITY.str ++ (onDbText db ++ (fromText names ++
+    have hs0 : s.Before ([' '] ++ (Token.EXACT.str ++ (' ' :: (Token.CARDINALITY.str ++ (onDbText db ++ (fromQualsText qs ++
         (withKeyText op key ++ (whereText c ++ (groupText ds ++ (posText .LIMIT l ++ (posText .OFFSET o ++ k)))))))))))
         := by
       simpa only [exactCardText, exactText, cardKeyText, if_true, List.append_assoc, List.cons_append, List.nil_append]
@@ -3516,7 +3518,7 @@ theorem showTagValuesCardinality_print_parse_partial (fuel : Nat) (s : PState) (
     rw [wp_bind, wp_of_run_ok h2]
     exact body s2 b2
   | false =>
-    have hs0 : s.Before ([' '] ++ (Token.CARDINALITY.str ++ (onDbText db ++ (fromText names ++
+    have hs0 : s.Before ([' '] ++ (Token.CARDINALITY.str ++ (onDbText db ++ (fromQualsText qs ++
         (withKeyText op key ++ (whereText c ++ (groupText ds ++ (posText .LIMIT l ++ (posText .OFFSET o ++ k)))))))))
         := by
       simpa only [exactCardText, exactText, cardKeyText, Bool.false_eq_true, if_false, List.append_assoc,
@@ -3531,11 +3533,11 @@ theorem showTagValuesCardinality_print_parse_partial (fuel : Nat) (s : PState) (
 end cardinality
 
 /-- Non-vacuity of the cardinality theorems. -/
-def exCardText : Str := exactCardText true ++ cardText "my db".toList exNames exCond exDims 10 3
+def exCardText : Str := exactCardText true ++ cardText "my db".toList exQs exCond exDims 10 3
 def exCardText2 : Str := exactCardText false ++ cardText [] [] none exDims 0 0
-def exCardKeyText : Str := exactCardText true ++ cardKeyText [] ["cpu".toList] .IN exKeyIn none exDims 5 0
+def exCardKeyText : Str := exactCardText true ++ cardKeyText [] [([], [], "cpu".toList)] .IN exKeyIn none exDims 5 0
 
-example : exCardText = (" EXACT CARDINALITY ON \"my db\" FROM cpu, \"my m\" WHERE host = 'a' AND (x > -1 OR y =~ /^b/) " ++
+example : exCardText = (" EXACT CARDINALITY ON \"my db\" FROM \"my db\"..cpu, rp.m, m WHERE host = 'a' AND (x > -1 OR y =~ /^b/) " ++
       "GROUP BY host, \"my tag\" LIMIT 10 OFFSET 3").toList ∧
     exCardText2 = " CARDINALITY GROUP BY host, \"my tag\"".toList ∧
     exCardKeyText = (" EXACT CARDINALITY FROM cpu WITH KEY IN (host, \"my tag\", \"select\") " ++
@@ -3544,9 +3546,9 @@ example : exCardText = (" EXACT CARDINALITY ON \"my db\" FROM cpu, \"my m\" WHER
 section
 attribute [local irreducible] wp
 example : wp (runHandler 200 .parseShowSeriesStatement) (PState.init exCardText [] [])
-    (fun st s' => st = .showSeriesCardinality "my db".toList true (exNames.map nameSrc) exCond exDims 10 3 ∧
+    (fun st s' => st = .showSeriesCardinality "my db".toList true (exQs.map qualSrc) exCond exDims 10 3 ∧
       RT.Stand s' [eofRune]) (· = .fuel) :=
-  showSeriesCardinality_print_parse_partial "my db".toList exNames exCond exDims 10 3 [eofRune] true 200
+  showSeriesCardinality_print_parse_partial "my db".toList exQs exCond exDims 10 3 [eofRune] true 200
     (PState.init exCardText [] []) (by decide +kernel) (by decide +kernel) (by decide +kernel) (by decide +kernel)
     (by decide) (by decide) (Follow.eof _ (by decide)) (init_before exCardText (by decide +kernel))
 
@@ -3564,16 +3566,16 @@ example : wp (runHandler 200 .parseShowTagKeyCardinalityStatement) (PState.init 
     (by decide) (by decide) (Follow.eof _ (by decide)) (init_before exCardText2 (by decide +kernel))).1
 
 example : wp (runHandler 200 .parseShowFieldKeyCardinalityStatement) (PState.init exCardText [] [])
-    (fun st s' => st = .showFieldKeyCardinality "my db".toList true (exNames.map nameSrc) exCond exDims 10 3 ∧
+    (fun st s' => st = .showFieldKeyCardinality "my db".toList true (exQs.map qualSrc) exCond exDims 10 3 ∧
       RT.Stand s' [eofRune]) (· = .fuel) :=
-  (showKeyCardinality_print_parse_partial "my db".toList exNames exCond exDims 10 3 [eofRune] true 200
+  (showKeyCardinality_print_parse_partial "my db".toList exQs exCond exDims 10 3 [eofRune] true 200
     (PState.init exCardText [] []) (by decide +kernel) (by decide +kernel) (by decide +kernel) (by decide +kernel)
     (by decide) (by decide) (Follow.eof _ (by decide)) (init_before exCardText (by decide +kernel))).2
 
 example : wp (runHandler 200 .parseShowTagValuesStatement) (PState.init exCardKeyText [] [])
-    (fun st s' => st = .showTagValuesCardinality [] true (["cpu".toList].map nameSrc) .IN (some exKeyIn) none exDims 5 0 ∧
+    (fun st s' => st = .showTagValuesCardinality [] true ([([], [], "cpu".toList)].map qualSrc) .IN (some exKeyIn) none exDims 5 0 ∧
       RT.Stand s' [eofRune]) (· = .fuel) :=
-  showTagValuesCardinality_print_parse_partial [] ["cpu".toList] none exDims 5 0 [eofRune] true 200
+  showTagValuesCardinality_print_parse_partial [] [([], [], "cpu".toList)] none exDims 5 0 [eofRune] true 200
     (PState.init exCardKeyText [] []) .IN exKeyIn (by decide +kernel) (by decide +kernel) (by decide +kernel)
     (by decide +kernel) (by decide +kernel) (by decide) (by decide) (Follow.eof _ (by decide))
     (init_before exCardKeyText (by decide +kernel))
@@ -3633,31 +3635,31 @@ def optKeyText (op : Token) : Option Expr → Str
   | none => []
   | some key => withKeyText op key
 
-/-- `[ON db] [FROM names] [WITH KEY …] [WHERE cond] [ORDER BY …] [LIMIT l] [OFFSET o] [SLIMIT sl] [SOFFSET so]`. -/
-def showTagKeysText (db : Str) (names : List Str) (op : Token) (key : Option Expr) (c : Option Expr) (sf : List SortField)
+/-- `[ON db] [FROM qs] [WITH KEY …] [WHERE cond] [ORDER BY …] [LIMIT l] [OFFSET o] [SLIMIT sl] [SOFFSET so]`. -/
+def showTagKeysText (db : Str) (qs : List (Str × Str × Str)) (op : Token) (key : Option Expr) (c : Option Expr) (sf : List SortField)
     (l o sl so : Int) : Str :=
-  onDbText db ++ (fromText names ++ (optKeyText op key ++ (whereText c ++ (orderText sf ++ (posText .LIMIT l ++
+  onDbText db ++ (fromQualsText qs ++ (optKeyText op key ++ (whereText c ++ (orderText sf ++ (posText .LIMIT l ++
     (posText .OFFSET o ++ (posText .SLIMIT sl ++ posText .SOFFSET so)))))))
 
-theorem showTagKeys_withKey_print_partial (db : Str) (names : List Str) (op : Token) (key : Option Expr) (c : Option Expr)
-    (sf : List SortField) (l o sl so : Int) (h : ∀ m ∈ names, m ≠ []) (hsf : sortOKB sf = true) :
-    (Statement.showTagKeys db (names.map nameSrc) op key c sf l o sl so).print =
-      tx "SHOW TAG KEYS" ++ showTagKeysText db names op key c sf l o sl so := by
+theorem showTagKeys_withKey_print_partial (db : Str) (qs : List (Str × Str × Str)) (op : Token) (key : Option Expr) (c : Option Expr)
+    (sf : List SortField) (l o sl so : Int) (hsf : sortOKB sf = true) :
+    (Statement.showTagKeys db (qs.map qualSrc) op key c sf l o sl so).print =
+      tx "SHOW TAG KEYS" ++ showTagKeysText db qs op key c sf l o sl so := by
   cases key with
   | none =>
-    have p1 : (Statement.showTagKeys db (names.map nameSrc) op none c sf l o sl so).print =
-        tx "SHOW TAG KEYS" ++ clauseOn db ++ clauseFrom (names.map nameSrc) ++ [] ++
+    have p1 : (Statement.showTagKeys db (qs.map qualSrc) op none c sf l o sl so).print =
+        tx "SHOW TAG KEYS" ++ clauseOn db ++ clauseFrom (qs.map qualSrc) ++ [] ++
         clauseWhere c ++ clauseOrderBy sf ++ clausePos "LIMIT" l ++ clausePos "OFFSET" o ++ clausePos "SLIMIT" sl ++
         clausePos "SOFFSET" so := rfl
-    rw [p1, clauseFrom_names names h, clauseWhere_eq, clauseOn_onDbText, (clausePos_eq l).1, (clausePos_eq o).2.1,
+    rw [p1, clauseFrom_quals qs, clauseWhere_eq, clauseOn_onDbText, (clausePos_eq l).1, (clausePos_eq o).2.1,
       (clausePos_eq sl).2.2.1, (clausePos_eq so).2.2.2, clauseOrderBy_eq sf hsf]
     simp only [showTagKeysText, optKeyText, List.append_assoc, List.append_nil, List.nil_append]
   | some k =>
-    have p1 : (Statement.showTagKeys db (names.map nameSrc) op (some k) c sf l o sl so).print =
-        tx "SHOW TAG KEYS" ++ clauseOn db ++ clauseFrom (names.map nameSrc) ++ printTagKey op k ++
+    have p1 : (Statement.showTagKeys db (qs.map qualSrc) op (some k) c sf l o sl so).print =
+        tx "SHOW TAG KEYS" ++ clauseOn db ++ clauseFrom (qs.map qualSrc) ++ printTagKey op k ++
         clauseWhere c ++ clauseOrderBy sf ++ clausePos "LIMIT" l ++ clausePos "OFFSET" o ++ clausePos "SLIMIT" sl ++
         clausePos "SOFFSET" so := rfl
-    rw [p1, printTagKey_eq, clauseFrom_names names h, clauseWhere_eq, clauseOn_onDbText, (clausePos_eq l).1,
+    rw [p1, printTagKey_eq, clauseFrom_quals qs, clauseWhere_eq, clauseOn_onDbText, (clausePos_eq l).1,
       (clausePos_eq o).2.1, (clausePos_eq sl).2.2.1, (clausePos_eq so).2.2.2, clauseOrderBy_eq sf hsf]
     simp only [showTagKeysText, optKeyText, List.append_assoc, List.append_nil]
 
@@ -3669,16 +3671,16 @@ def optKeyOKB (op : Token) : Option Expr → Bool
 
 /-- **Print → parse, SHOW TAG KEYS** `[ON db] [FROM m1, …] [WITH KEY = k | != k | =~ /re/ | !~ /re/ | IN (k1, …)]
 [WHERE cond] [ORDER BY [time] ASC|DESC] [LIMIT l] [OFFSET o] [SLIMIT sl] [SOFFSET so]` — `showTagKeys_print_parse_partial`
-extended by the key clause, `ORDER BY` (`sortOKB`) and the series limits. Partial: plain measurement names, `Printable` condition. -/
-theorem showTagKeys_withKey_print_parse_partial (fuel : Nat) (s : PState) (db : Str) (names : List Str) (op : Token)
+extended by the key clause, `ORDER BY` (`sortOKB`) and the series limits. Partial: sources as in `showTagValues_print_parse_partial` (`QualOK`), `Printable` condition. -/
+theorem showTagKeys_withKey_print_parse_partial (fuel : Nat) (s : PState) (db : Str) (qs : List (Str × Str × Str)) (op : Token)
     (key : Option Expr) (c : Option Expr) (sf : List SortField) (l o sl so : Int) (k : Str)
-    (hexdb : Expressible db) (hex : ∀ m ∈ names, Expressible m) (hkey : optKeyOKB op key = true) (hc : CondOK c)
+    (hexdb : Expressible db) (hq : ∀ m ∈ qs, QualOK m) (hkey : optKeyOKB op key = true) (hc : CondOK c)
     (hsf : sortOKB sf = true)
     (hl : 0 ≤ l ∧ l ≤ maxInt64) (ho : 0 ≤ o ∧ o ≤ maxInt64) (hsl : 0 ≤ sl ∧ sl ≤ maxInt64)
     (hso : 0 ≤ so ∧ so ≤ maxInt64) (hk : Follow k showStop)
-    (hs : s.Before (showTagKeysText db names op key c sf l o sl so ++ k)) :
+    (hs : s.Before (showTagKeysText db qs op key c sf l o sl so ++ k)) :
     wp (runHandler fuel .parseShowTagKeysStatement) s
-      (fun st s' => st = .showTagKeys db (names.map nameSrc) op key c sf l o sl so ∧ RT.Stand s' k) (· = .fuel) := by
+      (fun st s' => st = .showTagKeys db (qs.map qualSrc) op key c sf l o sl so ∧ RT.Stand s' k) (· = .fuel) := by
   have g6 : Follow (posText .SOFFSET so ++ k) [.EXACT, .CARDINALITY, .ON, .FROM, .COMMA, .WITH, .WHERE, .ORDER, .LIMIT, .OFFSET,
       .SLIMIT] := Follow.opt (kwText_pos _ _) (by decide +kernel) rfl (by decide) (hk.mono (by decide))
   have g5 : Follow (posText .SLIMIT sl ++ (posText .SOFFSET so ++ k)) [.EXACT, .CARDINALITY, .ON, .FROM, .COMMA, .WITH, .WHERE,
@@ -3700,15 +3702,15 @@ theorem showTagKeys_withKey_print_parse_partial (fuel : Nat) (s : PState) (db : 
     cases key with
     | none => exact g2.mono (by decide)
     | some key => exact Follow.opt (kwText_withKey op key) (by decide +kernel) rfl (by decide) (g2.mono (by decide))
-  have gF : Follow (fromText names ++ (optKeyText op key ++ (whereText c ++ (orderText sf ++ (posText .LIMIT l ++
+  have gF : Follow (fromQualsText qs ++ (optKeyText op key ++ (whereText c ++ (orderText sf ++ (posText .LIMIT l ++
       (posText .OFFSET o ++ (posText .SLIMIT sl ++ (posText .SOFFSET so ++ k)))))))) [.EXACT, .CARDINALITY, .ON] :=
-    Follow.opt (kwText_from _) (by decide +kernel) rfl (by decide) (gW.mono (by decide))
-  have hs0 : RT.Stand s (onDbText db ++ (fromText names ++ (optKeyText op key ++ (whereText c ++ (orderText sf ++
+    Follow.opt (kwText_fromQuals _) (by decide +kernel) rfl (by decide) (gW.mono (by decide))
+  have hs0 : RT.Stand s (onDbText db ++ (fromQualsText qs ++ (optKeyText op key ++ (whereText c ++ (orderText sf ++
       (posText .LIMIT l ++ (posText .OFFSET o ++ (posText .SLIMIT sl ++ (posText .SOFFSET so ++ k))))))))) := by
     have := hs.stand
     simpa only [showTagKeysText, List.append_assoc] using this
   obtain ⟨s3, h3, st3⟩ := parseOnDb_stand s db _ hexdb (gF.mono (by decide)) hs0
-  obtain ⟨s4, h4, st4⟩ := parseOptFrom_names s3 names _ hex (gW.mono (by decide)) st3
+  obtain ⟨s4, h4, st4⟩ := parseOptFrom_quals s3 qs _ hq (gW.mono (by decide)) st3
   -- the common tail
   have tail : ∀ s6 : PState, RT.Stand s6 (whereText c ++ (orderText sf ++ (posText .LIMIT l ++ (posText .OFFSET o ++
       (posText .SLIMIT sl ++ (posText .SOFFSET so ++ k)))))) →
@@ -3719,8 +3721,8 @@ theorem showTagKeys_withKey_print_parse_partial (fuel : Nat) (s : PState) (db : 
         let offset ← parseOptTokInt .OFFSET
         let slimit ← parseOptTokInt .SLIMIT
         let soffset ← parseOptTokInt .SOFFSET
-        pure (Statement.showTagKeys db (names.map nameSrc) op key cond sort limit offset slimit soffset)) s6
-        (fun st s' => st = Statement.showTagKeys db (names.map nameSrc) op key c sf l o sl so ∧ RT.Stand s' k)
+        pure (Statement.showTagKeys db (qs.map qualSrc) op key cond sort limit offset slimit soffset)) s6
+        (fun st s' => st = Statement.showTagKeys db (qs.map qualSrc) op key c sf l o sl so ∧ RT.Stand s' k)
         (· = .fuel) := by
     intro s6 st6
     rw [wp_bind]
@@ -3765,17 +3767,17 @@ theorem showTagKeys_withKey_print_parse_partial (fuel : Nat) (s : PState) (db : 
     exact tail s6 b6.stand
 
 /-- Non-vacuity: `SHOW TAG KEYS ON "my db" FROM cpu, "my m" WITH KEY =~ /^h/ WHERE … LIMIT 10 OFFSET 3 SLIMIT 2 SOFFSET 1`. -/
-def exTagKeysText : Str := showTagKeysText "my db".toList exNames .EQREGEX (some (.regex "^h".toList)) exCond [⟨[], false⟩] 10 3 2 1
+def exTagKeysText : Str := showTagKeysText "my db".toList exQs .EQREGEX (some (.regex "^h".toList)) exCond [⟨[], false⟩] 10 3 2 1
 
-example : exTagKeysText = (" ON \"my db\" FROM cpu, \"my m\" WITH KEY =~ /^h/ WHERE host = 'a' AND (x > -1 OR y =~ /^b/) " ++
+example : exTagKeysText = (" ON \"my db\" FROM \"my db\"..cpu, rp.m, m WITH KEY =~ /^h/ WHERE host = 'a' AND (x > -1 OR y =~ /^b/) " ++
     "ORDER BY DESC LIMIT 10 OFFSET 3 SLIMIT 2 SOFFSET 1").toList := by decide +kernel
 
 section
 attribute [local irreducible] wp
 example : wp (runHandler 200 .parseShowTagKeysStatement) (PState.init exTagKeysText [] [])
-    (fun st s' => st = .showTagKeys "my db".toList (exNames.map nameSrc) .EQREGEX (some (.regex "^h".toList)) exCond
+    (fun st s' => st = .showTagKeys "my db".toList (exQs.map qualSrc) .EQREGEX (some (.regex "^h".toList)) exCond
       [⟨[], false⟩] 10 3 2 1 ∧ RT.Stand s' [eofRune]) (· = .fuel) :=
-  showTagKeys_withKey_print_parse_partial 200 (PState.init exTagKeysText [] []) "my db".toList exNames .EQREGEX
+  showTagKeys_withKey_print_parse_partial 200 (PState.init exTagKeysText [] []) "my db".toList exQs .EQREGEX
     (some (.regex "^h".toList)) exCond [⟨[], false⟩] 10 3 2 1 [eofRune] (by decide +kernel) (by decide +kernel)
     (by decide +kernel) (by decide +kernel) (by decide +kernel) (by decide) (by decide) (by decide) (by decide)
     (Follow.eof _ (by decide))
@@ -3832,42 +3834,42 @@ theorem createDatabase_with_statement_print_parse_partial (fuel : Nat) (s : PSta
     hfz hpz hany hk hke hstop b1
   exact ⟨s', by rw [h1]; exact h2, b2⟩
 
-/-- **C02 for SHOW TAG VALUES** (partial as `showTagValues_print_parse_partial`; measurement names not empty). -/
-theorem showTagValues_statement_print_parse_partial (fuel : Nat) (s : PState) (db : Str) (names : List Str) (op : Token)
+/-- **C02 for SHOW TAG VALUES** (partial as `showTagValues_print_parse_partial`). -/
+theorem showTagValues_statement_print_parse_partial (fuel : Nat) (s : PState) (db : Str) (qs : List (Str × Str × Str)) (op : Token)
     (key : Expr) (c : Option Expr) (sf : List SortField) (l o : Int) (k : Str)
-    (hexdb : Expressible db) (hex : ∀ m ∈ names, Expressible m) (hne : ∀ m ∈ names, m ≠ [])
+    (hexdb : Expressible db) (hq : ∀ m ∈ qs, QualOK m)
     (hkey : tagKeyOKB op key = true) (hc : CondOK c) (hsf : sortOKB sf = true)
     (hl : 0 ≤ l ∧ l ≤ maxInt64) (ho : 0 ≤ o ∧ o ≤ maxInt64) (hk : Follow k showStop)
-    (hs : s.Before ((Statement.showTagValues db (names.map nameSrc) op (some key) c sf l o).print ++ k)) :
+    (hs : s.Before ((Statement.showTagValues db (qs.map qualSrc) op (some key) c sf l o).print ++ k)) :
     wp (parseStatement fuel) s
-      (fun st s' => st = .showTagValues db (names.map nameSrc) op (some key) c sf l o ∧ RT.Stand s' k) (· = .fuel) := by
-  rw [showTagValues_print_partial db names op key c sf l o hne hsf, List.append_assoc] at hs
+      (fun st s' => st = .showTagValues db (qs.map qualSrc) op (some key) c sf l o ∧ RT.Stand s' k) (· = .fuel) := by
+  rw [showTagValues_print_partial db qs op key c sf l o hsf, List.append_assoc] at hs
   refine statement_of_handler fuel (tx "SHOW TAG VALUES", [.SHOW, .TAG, .VALUES], .parseShowTagValuesStatement)
     (by simp [adminShowPaths]) s _ ?_ hs
-    (fun s1 b1 => showTagValues_print_parse_partial fuel s1 db names op key c sf l o k hexdb hex hkey hc hsf hl ho hk b1)
-  exact wordEnd_opt (OptText.append (kwText_onDb db).optText (OptText.append (kwText_from names).optText
+    (fun s1 b1 => showTagValues_print_parse_partial fuel s1 db qs op key c sf l o k hexdb hq hkey hc hsf hl ho hk b1)
+  exact wordEnd_opt (OptText.append (kwText_onDb db).optText (OptText.append (kwText_fromQuals qs).optText
     (Or.inr ⟨_, rfl⟩))) hk.tokEnd.1
 
 /-- **C02 for SHOW TAG KEYS** (partial as `showTagKeys_withKey_print_parse_partial`). -/
-theorem showTagKeys_statement_print_parse_partial (fuel : Nat) (s : PState) (db : Str) (names : List Str) (op : Token)
+theorem showTagKeys_statement_print_parse_partial (fuel : Nat) (s : PState) (db : Str) (qs : List (Str × Str × Str)) (op : Token)
     (key : Option Expr) (c : Option Expr) (sf : List SortField) (l o sl so : Int) (k : Str)
-    (hexdb : Expressible db) (hex : ∀ m ∈ names, Expressible m) (hne : ∀ m ∈ names, m ≠ [])
+    (hexdb : Expressible db) (hq : ∀ m ∈ qs, QualOK m)
     (hkey : optKeyOKB op key = true) (hc : CondOK c) (hsf : sortOKB sf = true)
     (hl : 0 ≤ l ∧ l ≤ maxInt64) (ho : 0 ≤ o ∧ o ≤ maxInt64) (hsl : 0 ≤ sl ∧ sl ≤ maxInt64)
     (hso : 0 ≤ so ∧ so ≤ maxInt64) (hk : Follow k showStop)
-    (hs : s.Before ((Statement.showTagKeys db (names.map nameSrc) op key c sf l o sl so).print ++ k)) :
+    (hs : s.Before ((Statement.showTagKeys db (qs.map qualSrc) op key c sf l o sl so).print ++ k)) :
     wp (parseStatement fuel) s
-      (fun st s' => st = .showTagKeys db (names.map nameSrc) op key c sf l o sl so ∧ RT.Stand s' k) (· = .fuel) := by
-  rw [showTagKeys_withKey_print_partial db names op key c sf l o sl so hne hsf, List.append_assoc] at hs
+      (fun st s' => st = .showTagKeys db (qs.map qualSrc) op key c sf l o sl so ∧ RT.Stand s' k) (· = .fuel) := by
+  rw [showTagKeys_withKey_print_partial db qs op key c sf l o sl so hsf, List.append_assoc] at hs
   refine statement_of_handler fuel (tx "SHOW TAG KEYS", [.SHOW, .TAG, .KEYS], .parseShowTagKeysStatement)
     (by simp [adminShowPaths]) s _ ?_ hs
-    (fun s1 b1 => showTagKeys_withKey_print_parse_partial fuel s1 db names op key c sf l o sl so k hexdb hex hkey hc hsf hl ho
+    (fun s1 b1 => showTagKeys_withKey_print_parse_partial fuel s1 db qs op key c sf l o sl so k hexdb hq hkey hc hsf hl ho
       hsl hso hk b1)
   have hkey' : OptText (optKeyText op key) := by
     cases key with
     | none => exact Or.inl rfl
     | some key => exact Or.inr ⟨_, rfl⟩
-  exact wordEnd_opt (OptText.append (kwText_onDb db).optText (OptText.append (kwText_from names).optText
+  exact wordEnd_opt (OptText.append (kwText_onDb db).optText (OptText.append (kwText_fromQuals qs).optText
     (OptText.append hkey' (OptText.append (kwText_where c).optText (OptText.append (kwText_order sf).optText
     (OptText.append (kwText_pos _ l).optText (OptText.append (kwText_pos _ o).optText
     (OptText.append (kwText_pos _ sl).optText (kwText_pos _ so).optText)))))))) hk.tokEnd.1
@@ -3890,29 +3892,29 @@ theorem showMeasurements_statement_print_parse_partial (fuel : Nat) (s : PState)
     (OptText.append (kwText_where c).optText (OptText.append (kwText_order sf).optText
     (OptText.append (kwText_pos _ l).optText (kwText_pos _ o).optText))))) hk.tokEnd.1
 
-/-- **C02 for the five cardinality statements** (partial as the family theorems; measurement names not empty). -/
-theorem cardinality_statement_print_parse_partial (fuel : Nat) (s : PState) (db : Str) (ex : Bool) (names : List Str)
+/-- **C02 for the five cardinality statements** (partial as the family theorems). -/
+theorem cardinality_statement_print_parse_partial (fuel : Nat) (s : PState) (db : Str) (ex : Bool) (qs : List (Str × Str × Str))
     (op : Token) (key : Expr) (c : Option Expr) (ds : List Expr) (l o : Int) (k : Str)
-    (hexdb : Expressible db) (hex : ∀ m ∈ names, Expressible m) (hne : ∀ m ∈ names, m ≠ [])
+    (hexdb : Expressible db) (hq : ∀ m ∈ qs, QualOK m)
     (hkey : tagKeyOKB op key = true) (hc : CondOK c) (hds : ∀ x ∈ ds, RT.rtOK false x = true)
     (hl : 0 ≤ l ∧ l ≤ maxInt64) (ho : 0 ≤ o ∧ o ≤ maxInt64) (hk : Follow k cardStop) :
-    (s.Before ((Statement.showSeriesCardinality db ex (names.map nameSrc) c ds l o).print ++ k) →
+    (s.Before ((Statement.showSeriesCardinality db ex (qs.map qualSrc) c ds l o).print ++ k) →
       wp (parseStatement fuel) s
-        (fun st s' => st = .showSeriesCardinality db ex (names.map nameSrc) c ds l o ∧ RT.Stand s' k) (· = .fuel)) ∧
-    (s.Before ((Statement.showMeasurementCardinality ex db (names.map nameSrc) c ds l o).print ++ k) →
+        (fun st s' => st = .showSeriesCardinality db ex (qs.map qualSrc) c ds l o ∧ RT.Stand s' k) (· = .fuel)) ∧
+    (s.Before ((Statement.showMeasurementCardinality ex db (qs.map qualSrc) c ds l o).print ++ k) →
       wp (parseStatement fuel) s
-        (fun st s' => st = .showMeasurementCardinality ex db (names.map nameSrc) c ds l o ∧ RT.Stand s' k) (· = .fuel)) ∧
-    (s.Before ((Statement.showTagKeyCardinality db ex (names.map nameSrc) c ds l o).print ++ k) →
+        (fun st s' => st = .showMeasurementCardinality ex db (qs.map qualSrc) c ds l o ∧ RT.Stand s' k) (· = .fuel)) ∧
+    (s.Before ((Statement.showTagKeyCardinality db ex (qs.map qualSrc) c ds l o).print ++ k) →
       wp (parseStatement fuel) s
-        (fun st s' => st = .showTagKeyCardinality db ex (names.map nameSrc) c ds l o ∧ RT.Stand s' k) (· = .fuel)) ∧
-    (s.Before ((Statement.showFieldKeyCardinality db ex (names.map nameSrc) c ds l o).print ++ k) →
+        (fun st s' => st = .showTagKeyCardinality db ex (qs.map qualSrc) c ds l o ∧ RT.Stand s' k) (· = .fuel)) ∧
+    (s.Before ((Statement.showFieldKeyCardinality db ex (qs.map qualSrc) c ds l o).print ++ k) →
       wp (parseStatement fuel) s
-        (fun st s' => st = .showFieldKeyCardinality db ex (names.map nameSrc) c ds l o ∧ RT.Stand s' k) (· = .fuel)) ∧
-    (s.Before ((Statement.showTagValuesCardinality db ex (names.map nameSrc) op (some key) c ds l o).print ++ k) →
+        (fun st s' => st = .showFieldKeyCardinality db ex (qs.map qualSrc) c ds l o ∧ RT.Stand s' k) (· = .fuel)) ∧
+    (s.Before ((Statement.showTagValuesCardinality db ex (qs.map qualSrc) op (some key) c ds l o).print ++ k) →
       wp (parseStatement fuel) s
-        (fun st s' => st = .showTagValuesCardinality db ex (names.map nameSrc) op (some key) c ds l o ∧ RT.Stand s' k)
+        (fun st s' => st = .showTagValuesCardinality db ex (qs.map qualSrc) op (some key) c ds l o ∧ RT.Stand s' k)
         (· = .fuel)) := by
-  obtain ⟨p1, p2, p3, p4, p5⟩ := cardinality_print_partial db ex names op key c ds l o hne
+  obtain ⟨p1, p2, p3, p4, p5⟩ := cardinality_print_partial db ex qs op key c ds l o
   have hw : ∀ x : Str, WordEnd (exactCardText ex ++ x ++ k) := by
     intro x
     cases ex with
@@ -3923,13 +3925,13 @@ theorem cardinality_statement_print_parse_partial (fuel : Nat) (s : PState) (db 
     rw [p1, List.append_assoc] at hs
     exact statement_of_handler fuel (tx "SHOW SERIES", [.SHOW, .SERIES], .parseShowSeriesStatement)
       (by simp [adminShowPaths]) s _ (hw _) hs
-      (fun s1 b1 => showSeriesCardinality_print_parse_partial db names c ds l o k ex fuel s1 hexdb hex hc hds hl ho hk b1)
+      (fun s1 b1 => showSeriesCardinality_print_parse_partial db qs c ds l o k ex fuel s1 hexdb hq hc hds hl ho hk b1)
   · intro hs
     rw [p2] at hs
     cases ex with
     | true =>
-      have e : tx "SHOW MEASUREMENT" ++ (exactCardText true ++ cardText db names c ds l o) ++ k =
-          tx "SHOW MEASUREMENT EXACT" ++ ((' ' :: Token.CARDINALITY.str) ++ cardText db names c ds l o ++ k) := by
+      have e : tx "SHOW MEASUREMENT" ++ (exactCardText true ++ cardText db qs c ds l o) ++ k =
+          tx "SHOW MEASUREMENT EXACT" ++ ((' ' :: Token.CARDINALITY.str) ++ cardText db qs c ds l o ++ k) := by
         have e1 : tx "SHOW MEASUREMENT" ++ exactCardText true = tx "SHOW MEASUREMENT EXACT" ++ (' ' :: Token.CARDINALITY.str) := by
           decide +kernel
         rw [← List.append_assoc (tx "SHOW MEASUREMENT"), e1]
@@ -3937,50 +3939,50 @@ theorem cardinality_statement_print_parse_partial (fuel : Nat) (s : PState) (db 
       rw [e] at hs
       exact statement_of_handler fuel (tx "SHOW MEASUREMENT EXACT", [.SHOW, .MEASUREMENT, .EXACT],
         .parseShowMeasurementCardinalityStatement_true) (by simp [adminShowPaths]) s
-        ((' ' :: Token.CARDINALITY.str) ++ cardText db names c ds l o ++ k) (WordEnd.blank _) hs
-        (fun s1 b1 => showMeasurementCardinality_print_parse_partial db names c ds l o k true fuel s1 hexdb hex hc hds hl ho hk
+        ((' ' :: Token.CARDINALITY.str) ++ cardText db qs c ds l o ++ k) (WordEnd.blank _) hs
+        (fun s1 b1 => showMeasurementCardinality_print_parse_partial db qs c ds l o k true fuel s1 hexdb hq hc hds hl ho hk
           (by simpa only [if_true] using b1))
     | false =>
-      have e : tx "SHOW MEASUREMENT" ++ (exactCardText false ++ cardText db names c ds l o) ++ k =
-          tx "SHOW MEASUREMENT CARDINALITY" ++ (cardText db names c ds l o ++ k) := by
+      have e : tx "SHOW MEASUREMENT" ++ (exactCardText false ++ cardText db qs c ds l o) ++ k =
+          tx "SHOW MEASUREMENT CARDINALITY" ++ (cardText db qs c ds l o ++ k) := by
         have e1 : tx "SHOW MEASUREMENT" ++ exactCardText false = tx "SHOW MEASUREMENT CARDINALITY" := by decide +kernel
         rw [← List.append_assoc (tx "SHOW MEASUREMENT"), e1]
         simp only [List.append_assoc]
       rw [e] at hs
-      have hwc : WordEnd (cardText db names c ds l o ++ k) :=
-        wordEnd_opt (OptText.append (kwText_onDb db).optText (OptText.append (kwText_from names).optText
+      have hwc : WordEnd (cardText db qs c ds l o ++ k) :=
+        wordEnd_opt (OptText.append (kwText_onDb db).optText (OptText.append (kwText_fromQuals qs).optText
           (OptText.append (kwText_where c).optText (OptText.append (kwText_group ds).optText
           (OptText.append (kwText_pos _ l).optText (kwText_pos _ o).optText))))) hk.tokEnd.1
       exact statement_of_handler fuel (tx "SHOW MEASUREMENT CARDINALITY", [.SHOW, .MEASUREMENT, .CARDINALITY],
         .parseShowMeasurementCardinalityStatement_false) (by simp [adminShowPaths]) s _ hwc hs
-        (fun s1 b1 => showMeasurementCardinality_print_parse_partial db names c ds l o k false fuel s1 hexdb hex hc hds hl ho hk
+        (fun s1 b1 => showMeasurementCardinality_print_parse_partial db qs c ds l o k false fuel s1 hexdb hq hc hds hl ho hk
           (by simpa only [Bool.false_eq_true, if_false, List.nil_append] using b1))
   · intro hs
     rw [p3, List.append_assoc] at hs
     exact statement_of_handler fuel (tx "SHOW TAG KEY", [.SHOW, .TAG, .KEY], .parseShowTagKeyCardinalityStatement)
       (by simp [adminShowPaths]) s _ (hw _) hs
-      (fun s1 b1 => (showKeyCardinality_print_parse_partial db names c ds l o k ex fuel s1 hexdb hex hc hds hl ho hk b1).1)
+      (fun s1 b1 => (showKeyCardinality_print_parse_partial db qs c ds l o k ex fuel s1 hexdb hq hc hds hl ho hk b1).1)
   · intro hs
     rw [p4, List.append_assoc] at hs
     exact statement_of_handler fuel (tx "SHOW FIELD KEY", [.SHOW, .FIELD, .KEY], .parseShowFieldKeyCardinalityStatement)
       (by simp [adminShowPaths]) s _ (hw _) hs
-      (fun s1 b1 => (showKeyCardinality_print_parse_partial db names c ds l o k ex fuel s1 hexdb hex hc hds hl ho hk b1).2)
+      (fun s1 b1 => (showKeyCardinality_print_parse_partial db qs c ds l o k ex fuel s1 hexdb hq hc hds hl ho hk b1).2)
   · intro hs
     rw [p5, List.append_assoc] at hs
     exact statement_of_handler fuel (tx "SHOW TAG VALUES", [.SHOW, .TAG, .VALUES], .parseShowTagValuesStatement)
       (by simp [adminShowPaths]) s _ (hw _) hs
-      (fun s1 b1 => showTagValuesCardinality_print_parse_partial db names c ds l o k ex fuel s1 op key hexdb hex hkey hc hds hl
+      (fun s1 b1 => showTagValuesCardinality_print_parse_partial db qs c ds l o k ex fuel s1 op key hexdb hq hkey hc hds hl
         ho hk b1)
 
 /-- Non-vacuity, end to end: `ParseStatement` on the printed statements themselves. -/
 def exTagValuesStmt : Statement :=
-  .showTagValues "my db".toList (exNames.map nameSrc) .IN (some exKeyIn) exCond exSort 10 3
+  .showTagValues "my db".toList (exQs.map qualSrc) .IN (some exKeyIn) exCond exSort 10 3
 def exCardStmt : Statement :=
-  .showMeasurementCardinality true "my db".toList (exNames.map nameSrc) exCond exDims 10 3
+  .showMeasurementCardinality true "my db".toList (exQs.map qualSrc) exCond exDims 10 3
 
-example : exTagValuesStmt.print = ("SHOW TAG VALUES ON \"my db\" FROM cpu, \"my m\" WITH KEY IN (host, \"my tag\", \"select\") " ++
+example : exTagValuesStmt.print = ("SHOW TAG VALUES ON \"my db\" FROM \"my db\"..cpu, rp.m, m WITH KEY IN (host, \"my tag\", \"select\") " ++
       "WHERE host = 'a' AND (x > -1 OR y =~ /^b/) ORDER BY time DESC LIMIT 10 OFFSET 3").toList ∧
-    exCardStmt.print = ("SHOW MEASUREMENT EXACT CARDINALITY ON \"my db\" FROM cpu, \"my m\" " ++
+    exCardStmt.print = ("SHOW MEASUREMENT EXACT CARDINALITY ON \"my db\" FROM \"my db\"..cpu, rp.m, m " ++
       "WHERE host = 'a' AND (x > -1 OR y =~ /^b/) GROUP BY host, \"my tag\" LIMIT 10 OFFSET 3").toList := by
   decide +kernel
 
@@ -3988,16 +3990,16 @@ section
 attribute [local irreducible] wp
 example : wp (parseStatement 200) (PState.init exTagValuesStmt.print [] [])
     (fun st s' => st = exTagValuesStmt ∧ RT.Stand s' [eofRune]) (· = .fuel) :=
-  showTagValues_statement_print_parse_partial 200 (PState.init exTagValuesStmt.print [] []) "my db".toList exNames .IN exKeyIn
+  showTagValues_statement_print_parse_partial 200 (PState.init exTagValuesStmt.print [] []) "my db".toList exQs .IN exKeyIn
     exCond exSort 10 3 [eofRune] (by decide +kernel) (by decide +kernel) (by decide +kernel) (by decide +kernel)
-    (by decide +kernel) (by decide +kernel) (by decide) (by decide) (Follow.eof _ (by decide))
+    (by decide +kernel) (by decide) (by decide) (Follow.eof _ (by decide))
     (init_before exTagValuesStmt.print (by decide +kernel))
 
 example : wp (parseStatement 200) (PState.init exCardStmt.print [] [])
     (fun st s' => st = exCardStmt ∧ RT.Stand s' [eofRune]) (· = .fuel) :=
-  (cardinality_statement_print_parse_partial 200 (PState.init exCardStmt.print [] []) "my db".toList true exNames .EQ
+  (cardinality_statement_print_parse_partial 200 (PState.init exCardStmt.print [] []) "my db".toList true exQs .EQ
     (.string ['k']) exCond exDims 10 3 [eofRune] (by decide +kernel) (by decide +kernel) (by decide +kernel)
-    (by decide +kernel) (by decide +kernel) (by decide +kernel) (by decide) (by decide) (Follow.eof _ (by decide))).2.1
+    (by decide +kernel) (by decide +kernel) (by decide) (by decide) (Follow.eof _ (by decide))).2.1
     (init_before exCardStmt.print (by decide +kernel))
 end
 
